@@ -12,6 +12,8 @@ def b(x):
 def klass(e):
     if e["res"] == "panic":
         return "panic"
+    if e.get("ev") == "RTC":
+        return "concurrent-connections"
     a = [tuple(b(v) for v in t) for t in e["arrivals1"]]
     if a[0] != a[1] and "".join(a[0]) == "".join(a[1]):
         return "merged:concatenations-coincide"
@@ -33,6 +35,11 @@ def run(chk):
     seen = {}
     for e, txt in r["findings"]:
         seen.setdefault(klass(e), e)
+    for k, e in list(seen.items()):
+        if k == "concurrent-connections" or e.get("ev") == "RTC":
+            chk.report("routing:" + k, "connections routing at the same time: pipelines (id, tag, tuples received, records) %s for connections sending %s x %d - rejected by Routing!CheckConcurrent"
+                       % ([(b(p[0]), b(p[1]), [[b(v) for v in t] for t in p[2]], p[3]) for p in e["pipelines"]], [[[b(v) for v in t] for t in c] for c in e["conns"]], e["rounds"]), {"event.json": e})
+            del seen[k]
     for k, e in seen.items():
         chk.report("routing:" + k, "orchestrator scenario arrivals %s: pipelines %s, routed %s, dirs %s; second life recovered %s routedTo %s - rejected by Routing!Check"
                    % ([[b(v) for v in t] for t in e["arrivals1"]], [(b(p[0]), b(p[1])) for p in e["p1"]["pipelines"]], e["p1"]["routed"],
@@ -41,7 +48,7 @@ def run(chk):
     chk.cov.update({"states": r0.get("distinct", 0) + r["states"], "transitions": r0.get("generated", 0) + r["states"],
                     "traces_validated_against_impl": r["events"], "evaluations": r["events"], "distinct_nontrivial": r["cases"], "exhaustive": True,
                     "mc_runs": [{"cfg": r0["cfg"], "distinct": r0.get("distinct"), "ok": True}],
-                    "rule": "every ordered pair of key tuples over the value alphabet {'' a b ab , / a,b a/b NUL%s} for two key fields (three tag templates in rotation), for one key field, and over {'' a , 'a,'} for three key fields; each scenario: arrivals t1 t2 t1 on the real orchestrator with real queue directories, restart through ListBufferIDs on the same queue root, arrivals t2 t1" % (" \\\\ \\\\, 1 : 1:a" if thorough else ""),
+                    "rule": "every ordered pair of key tuples over the value alphabet {'' a b ab , / a,b a/b NUL%s} for two key fields (three tag templates in rotation), for one key field, and over {'' a , 'a,'} for three key fields; plus 6 runs per shard of four connections routing their own tuples at the same time on four processors (3000 / thorough 40000 batches each); each scenario: arrivals t1 t2 t1 on the real orchestrator with real queue directories, restart through ListBufferIDs on the same queue root, arrivals t2 t1" % (" \\\\ \\\\, 1 : 1:a" if thorough else ""),
                     "samples": [json.loads(l) for l in open(r["first_trace"]).read().splitlines()[1:2]]})
     chk.assumptions += ["the 8 hex digits of MD5 in a queue directory name are treated as collision-free for distinct ids",
                         "metric label attribution by key values (same lookup-key construction) is checked by C19"]
